@@ -8,7 +8,7 @@ import re
 
 from ..core import Checker, Rule, attr_calls, callee_is, calls_in, kwarg, resolved_calls, short
 from ..interp import Pins, find_nodes, unparse
-from .util import ancestors, effect_table, enclosing_loop, enclosing_stmt, enum_members, every_iteration_reaches, fmt, inline_displays, is_const, parent, parents, returns_of, self_attr_for_param, single_def
+from .util import ancestors, effect_table, enclosing_loop, enclosing_stmt, enum_members, every_iteration_reaches, fmt, inline_displays, is_const, parent, parents, returns_of, same, self_attr_for_param, single_def, contributions, resolved
 
 P14 = ("C14", "C01", "C06")
 G = "math_simplification:Goebner"
@@ -159,9 +159,8 @@ def r_simplify(ck: Checker) -> None:
     ck.guard("every variable that must be bound was solved for", func, fin[0], "needed_bound_symbols.issubset(solved_for)", "otherwise the new body is unsafe")
     gb = resolved_calls(ck.prg, func, "sympy.groebner")
     ck.need(len(gb) == 1, "one Groebner basis computation")
-    vl = [c for c in attr_calls(func, "extend") if unparse(c.func.value) == "varlist"]  # type: ignore[attr-defined]
-    order = [unparse(c.args[0]).replace(" ", "") for c in vl]
-    ok = len(order) == 4 and order[0].startswith("[xforxinself._fo_varsifxnotinneeded_vars_symbols]") and "help_neq_vars" in order[1] and "_sym2agg" in order[2] and order[3] == "ordered(needed_vars_symbols)"
+    order = [t for _, t in contributions(func, "varlist")]
+    ok = len(order) == 4 and same(order[0], "[x for x in self._fo_vars if x not in needed_vars_symbols]") and "help_neq_vars" in order[1] and "_sym2agg" in order[2] and order[3] == "ordered(needed_vars_symbols)"
     ck.add("elimination order: unneeded variables first, needed variables last (sorted)", ok, func, gb[0], f"varlist built from {order}", "lex Groebner bases eliminate the leading variables: needed ones must come last; ordered() makes it reproducible")
 
 
@@ -299,7 +298,7 @@ def r_unify_table(ck: Checker) -> None:
     r = [x for x in returns_of(seq) if is_const(x.value, False)]
     ck.add("sequences of different length cannot unify", len(r) == 1 and its.holds(r[0], f"len({seq.params()[0]}) != len({seq.params()[1]})"), seq, seq.node, "`return False` only under a length mismatch", "")
     rr = [x for x in returns_of(seq) if not is_const(x.value, False)]
-    ok = len(rr) == 1 and unparse(rr[0].value).replace(" ", "") == f"all(map(lambdax:potentially_unifying(*x),zip({seq.params()[0]},{seq.params()[1]})))"  # type: ignore[arg-type]
+    ok = len(rr) == 1 and same(unparse(rr[0].value), f"all(map(lambda x: potentially_unifying(*x), zip({seq.params()[0]}, {seq.params()[1]})))")  # type: ignore[arg-type]
     ck.add("sequences unify iff all positions may unify", ok, seq, seq.node, f"`{fmt(rr[0]) if rr else None}`", "")
 
 
